@@ -37,7 +37,22 @@ def setup():
     return 0
 
 
+def reset_signals():
+    '''A check may be started from a background job or under nohup, where SIGINT, SIGQUIT or
+    SIGHUP are ignored; ignored signals are inherited by the commands the checks run (C19 runs
+    commands that kill themselves with a signal).  Restore the default dispositions.'''
+    import signal
+    for sig in (signal.SIGINT, signal.SIGQUIT, signal.SIGHUP, signal.SIGTERM, signal.SIGPIPE,
+                signal.SIGUSR1, signal.SIGUSR2, signal.SIGALRM):
+        try:
+            if signal.getsignal(sig) == signal.SIG_IGN:
+                signal.signal(sig, signal.SIG_DFL)
+        except (OSError, ValueError):
+            pass
+
+
 def main(argv=None):
+    reset_signals()
     par = argparse.ArgumentParser()
     par.add_argument('pid')
     par.add_argument('targets', nargs='*')
